@@ -32,6 +32,10 @@ pub enum Kind {
     NoFdtCachedTinyPayload,
     /// objects stalled by a missing symbol while NEW FDT instances keep arriving more often than the object timeout
     StalledWithFdtUpdates,
+    /// thousands of FDT instances (distinct ids) that are complete but already expired when they arrive
+    ExpiredFdtInstances,
+    /// many objects that lose a symbol but whose close-object packet arrives (they end interrupted)
+    InterruptedObjects,
 }
 
 #[derive(Clone, Debug, PartialEq, Serialize, Deserialize)]
@@ -61,17 +65,19 @@ pub fn gen(idx: u64, rng: &mut Rng, tier: Tier) -> Scn {
         Kind::ManySessions,
         Kind::NoFdtCachedTinyPayload,
         Kind::StalledWithFdtUpdates,
+        Kind::ExpiredFdtInstances,
+        Kind::InterruptedObjects,
     ];
-    let kind = kinds[(idx % 8) as usize];
+    let kind = kinds[(idx % 10) as usize];
     let cache = *rng.pick(&[1024usize, 4096, 16 * 1024, 64 * 1024, if tier == Tier::Thorough { 1024 * 1024 } else { 32 * 1024 }]);
     let scheme = match kind {
-        Kind::MissingSymbol | Kind::StalledWithFdtUpdates => Scheme::NoCode,
+        Kind::MissingSymbol | Kind::StalledWithFdtUpdates | Kind::InterruptedObjects => Scheme::NoCode,
         _ => *rng.pick(&[Scheme::NoCode, Scheme::Rs28, Scheme::RaptorQ]),
     };
     Scn {
         kind,
         cache,
-        max_objects_error: *rng.pick(&[0usize, 1, 2, 8]),
+        max_objects_error: if kind == Kind::InterruptedObjects { *rng.pick(&[1usize, 2, 4, 8]) } else { *rng.pick(&[0usize, 1, 2, 8]) },
         object_timeout_ms: *rng.pick(&[5u64, 100, 10_000]),
         session_timeout_ms: if rng.chance(0.7) { Some(*rng.pick(&[10u64, 500, 30_000])) } else { None },
         scheme,
@@ -206,6 +212,50 @@ pub fn run(scn: &Scn, ctx: &Ctx, scratch: &Path) {
         Kind::StalledWithFdtUpdates => {
             // handled below (needs its own clock schedule)
         }
+        Kind::ExpiredFdtInstances => {
+            // single-packet FDT instances, each with a new id, Expires far in the past (NTP seconds), no SCT
+            let n = scn.factor as usize * 100;
+            for i in 1..=n {
+                let pad = "x".repeat((scn.e as usize).min(900));
+                let xml = format!(
+                    "<?xml version=\"1.0\" encoding=\"UTF-8\"?><FDT-Instance xmlns=\"urn:IETF:metadata:2005:FLUTE:FDT\" Expires=\"3000000000\"><File TOI=\"{}\" Content-Location=\"file:///expired/{}/{}\" Content-Length=\"10\" Transfer-Length=\"10\" FEC-OTI-FEC-Encoding-ID=\"0\" FEC-OTI-Maximum-Source-Block-Length=\"4\" FEC-OTI-Encoding-Symbol-Length=\"16\"/></FDT-Instance>",
+                    i, i, pad
+                );
+                traffic.extend(wire::packetise_fdt(xml.as_bytes(), 1, i as u32, 1400, None, None));
+            }
+            block_bytes = 4 * e;
+        }
+        Kind::InterruptedObjects => {
+            let mut spec = SenderSpec::basic(OtiSpec::new(Scheme::NoCode, 1400, 64, 0, true));
+            spec.interleave = 1;
+            spec.queues = vec![(0, 1)];
+            let nobj = 24 + 4 * scn.b as usize;
+            let mut objects = Vec::new();
+            let mut ops = Vec::new();
+            for i in 0..nobj {
+                let mut o = ObjectSpec::basic(3 * 16, 0xC17 + i as u64, i);
+                o.md5 = false;
+                o.oti = Some(OtiSpec::new(Scheme::NoCode, 16, 4, 0, i % 2 == 0));
+                objects.push(o);
+                ops.push(TimedOp { when: When::AtUs(0), op: Op::Add(i) });
+            }
+            ops.push(TimedOp { when: When::AtUs(0), op: Op::Publish });
+            let mut poll = PollSpec::simple(1000);
+            poll.max_pkts = 10_000;
+            poll.idle_polls_after_done = 0;
+            let s = SenderScn { spec, objects, ops, poll, snapshots: false };
+            let sess = match run_sender(&s, ctx, scratch) {
+                Some(x) => x,
+                None => return,
+            };
+            for p in &sess.trace.pkts {
+                // the first symbol of every object is lost, its close-object packet arrives
+                if !(p.dec.toi != 0 && p.dec.esi == 0) {
+                    traffic.push(p.bytes.clone());
+                }
+            }
+            block_bytes = 4 * 16;
+        }
     }
     if scn.kind == Kind::StalledWithFdtUpdates {
         return run_fdt_updates(scn, ctx, scratch, &recv);
@@ -237,7 +287,8 @@ pub fn run(scn: &Scn, ctx: &Ctx, scratch: &Path) {
     for (i, b) in traffic.iter().enumerate() {
         t += 50;
         rr.push(&ep, b, t);
-        if scn.cleanup_every > 0 && (i as u32 + 1) % scn.cleanup_every == 0 {
+        let cleanup_every = if scn.kind == Kind::ExpiredFdtInstances { 1 } else { scn.cleanup_every };
+        if cleanup_every > 0 && (i as u32 + 1) % cleanup_every == 0 {
             rr.cleanup(t);
         }
         let ne = rr.nb_objects_error();
@@ -278,6 +329,8 @@ pub fn run(scn: &Scn, ctx: &Ctx, scratch: &Path) {
         Kind::ManyTois => "inject-many-tois",
         Kind::ManyFdtIds => "inject-many-fdt-ids",
         Kind::ManySessions => "inject-many-sessions",
+        Kind::ExpiredFdtInstances => "inject-expired-fdt-instances",
+        Kind::InterruptedObjects => "drop-class-first-symbol-keep-close-object",
     });
     match scn.kind {
         Kind::NoFdtInband | Kind::NoFdtCached | Kind::MissingSymbol | Kind::NoFdtCachedTinyPayload => {
@@ -317,6 +370,26 @@ pub fn run(scn: &Scn, ctx: &Ctx, scratch: &Path) {
                         format!("the stalled object was never counted in nb_objects_error() (max_objects_error={})", scn.max_objects_error),
                     );
                 }
+            }
+        }
+        Kind::ExpiredFdtInstances => {
+            // cleanup ran after every push: an instance that is expired on arrival is released at once
+            let bound = 128 * 1024;
+            if worst_growth > bound {
+                violate(
+                    ctx,
+                    "C17/expired-fdt-instances-accumulate",
+                    "-",
+                    format!(
+                        "{} complete-but-expired FDT instances (new id each, cleanup after every push) made the receiver hold {} bytes (bound {})",
+                        traffic.len(), worst_growth, bound
+                    ),
+                );
+            }
+        }
+        Kind::InterruptedObjects => {
+            if max_err == 0 && scn.max_objects_error >= 1 {
+                ctx.borrow_mut().note("note:interrupted-objects-not-counted-in-error");
             }
         }
         _ => {}
